@@ -156,6 +156,12 @@ func backSlice(v ssa.Value, pred func(x ssa.Value) bool, through func(key string
 		case *ssa.TypeAssert:
 			return rec(y.X, d+1)
 		case *ssa.Extract:
+			if c, ok := y.Tuple.(*ssa.Call); ok {
+				if g := InlinedCallee(c); g != nil {
+					// result of an extracted helper: what the helper returns there
+					return inlinedRets(g, y.Index, func(v ssa.Value) bool { return rec(v, d+1) }, must)
+				}
+			}
 			return rec(y.Tuple, d+1)
 		case *ssa.FieldAddr:
 			return rec(y.X, d+1)
@@ -190,6 +196,11 @@ func backSlice(v ssa.Value, pred func(x ssa.Value) bool, through func(key string
 				return rec(b, d+1)
 			}
 		case *ssa.Call:
+			if g := InlinedCallee(y); g != nil {
+				if inlinedRets(g, 0, func(v ssa.Value) bool { return rec(v, d+1) }, must) {
+					return true
+				}
+			}
 			k := CallKey(y.Common())
 			if k == "builtin.append" || (through != nil && through(k)) {
 				if y.Common().IsInvoke() && rec(y.Common().Value, d+1) {
@@ -224,4 +235,24 @@ func DependsOnCall(v ssa.Value, match func(key string) bool, through func(key st
 // DependsOnValue: v's backward slice contains src.
 func DependsOnValue(v, src ssa.Value, through func(key string) bool) bool {
 	return BackSlice(v, func(x ssa.Value) bool { return x == src }, through)
+}
+
+// inlinedRets applies f to the idx-th operand of every return of helper g:
+// some (may) or all (must) must satisfy it.
+func inlinedRets(g *ssa.Function, idx int, f func(ssa.Value) bool, must bool) bool {
+	n, hit := 0, 0
+	for _, b := range g.Blocks {
+		for _, in := range b.Instrs {
+			if rt, ok := in.(*ssa.Return); ok && idx < len(rt.Results) {
+				n++
+				if f(RetVal(rt, idx)) {
+					hit++
+				}
+			}
+		}
+	}
+	if must {
+		return n > 0 && hit == n
+	}
+	return hit > 0
 }
